@@ -89,20 +89,26 @@ class Fault:
     nth: int = 0
     url_filter: str | None = None                 # regex on the URL
     min_occ: int = 0                              # cross-refresh faults need a predecessor
+    min_manifests: int = 0                        # only responses served after this many manifests offer anything
     family: str = ''
     applied_url: str | None = None
     original: bytes = b''
     rewritten: bytes = b''
     applied_info: dict = field(default_factory=dict)
     seen: int = 0
+    manifests_seen: int = 0
 
     def offer(self, kind: str, url: str, data: bytes) -> tuple[bytes, int, int]:
         """returns (data, offers, faulted) - the schedule of ValidatorFaults!Serve: every
         response of the target kind that offers something to corrupt counts as one occurrence
         until the fault has been applied; the nth (and not before min_occ) is rewritten."""
+        if kind == 'manifest':
+            self.manifests_seen += 1
         if self.applied_url is not None or kind != self.target:
             return data, 0, 0
         if self.url_filter and not re.search(self.url_filter, url):
+            return data, 0, 0
+        if self.manifests_seen < self.min_manifests:
             return data, 0, 0
         info: dict = {'url': url, 'occurrence': self.seen}
         out = self.rewrite(data, info)
